@@ -500,7 +500,7 @@ REF_DIS = ['', 'a', 'Display Name', 'a"b', 'a\\b', 'a\nb', ' lead', 'trail ', 'a
 BIN_MIMES = ['text/plain', 'image/png', 'application/octet-stream', 'text/plain; charset=utf-8',
              'a', 'x-y/z+w', 'text/"q"', "it's", 'a b', 'a,b', 'a:b', '$', '\\', '~', ' ']
 
-XSTR_TYPES = ['Type', 'Foo', 'Color', 'T', 'X1', 'My_Type', 'Span', 'Bin']
+XSTR_TYPES = ['Type', 'Foo', 'Color', 'T', 'X1', 'My_Type', 'Span', 'Binary']
 XSTR_LOWER_TYPES = ['type', 'a', 'foo_1']
 XSTR_PAYLOADS = ['', 'a', 'payload', 'a b', 'a:b', 'a"b', 'a\\b', 'a\nb', '$x', u'\u00e9', u'\U0001f600',
                  '\x01', 'a)b', 'a(b', '"', '\\', ':', '::', 'x:y:z', '\r', '\t', "'", 'a`b',
@@ -747,6 +747,9 @@ class Gen(object):
             microseconds=r.choice([0, 0, r.randint(0, 999999)]))
         loc = t.astimezone(tz)
         off = loc.utcoffset()
+        if (off.days * 86400 + off.seconds) % 60:
+            # local-mean-time era: the formats' hh:mm offset cannot express it (DESIGN 2.1)
+            return self.dt()
         return ('dt', (loc.year, loc.month, loc.day, loc.hour, loc.minute, loc.second, loc.microsecond),
                 off.days * 86400 + off.seconds, z)
 
